@@ -35,8 +35,13 @@ ARRAY_ITEMS = {"integer": ["1", "2", "3"], "real": ["1.5", "2.5", "3.5"], "compl
                "character": ["'a,b'", "'c d'", "'e''f'"], "doubleprecision": ["1.5d0", "2.5d0", "3.5d0"]}
 
 
+TYPED = {"integer": "integer", "real": "real", "complex": "complex", "logical": "logical", "character": "character(len=3)", "doubleprecision": "double precision"}
+
+
 def array_text(base, ctor):
     items = ", ".join(ARRAY_ITEMS[base])
+    if ctor == "typed":
+        return f"[{TYPED[base]} :: {items}]"
     return f"[{items}]" if ctor == "bracket" else f"(/ {items} /)"
 
 
@@ -593,11 +598,17 @@ def render_multi(f, sp):
         t = f"v{i}" + {"none": "", "d3": "(3)", "d22": "(2,2)" if tight else "(2, 2)"}[e["dims"]]
         if e["clen"] == "star5":
             t += "*5"
+        elif e["clen"] == "starparen":
+            t += "*(5)"
         if e["init"] == "value":
             t += (" = " if not tight else "=") + MULTI_INIT[b]
         names.append(t)
     sep = "," if tight else ", "
-    decl = ts + "".join(", " + a for a in attrs) + (" :: " if dc else " ") + sep.join(names)
+    head = ts + "".join(", " + a for a in attrs) + (" :: " if dc else " ")
+    if sp.get("semi"):
+        decl = ("; " if not tight else ";").join(head + nm for nm in names)
+    else:
+        decl = head + sep.join(names)
     return "module m\n  implicit none\n  " + decl + "\nend module m\n"
 
 
@@ -622,7 +633,7 @@ def eval_multi(case):
                "dims": {"none": "(4)" if f["attrdim"] != "none" else "", "d3": "(3)", "d22": "(2,2)"}[e["dims"]],
                "initial": tree._squash_code(MULTI_INIT[b]) if e["init"] == "value" else None}
         if b == "character":
-            exp["len"] = "5" if e["clen"] == "star5" else ("10" if f["typelen"] == "kind" else "1")
+            exp["len"] = "5" if e["clen"] == "star5" else ("(5)" if e["clen"] == "starparen" else ("10" if f["typelen"] == "kind" else "1"))
         elif f["typelen"] == "kind":
             exp["kind"] = "8"
         for k, w in exp.items():
